@@ -121,3 +121,80 @@ func syncingFlood(r *core.Run) {
 		}
 	})
 }
+
+// Group vote-flood: several peer connections deliver well-formed but useless votes (votes the node already has) to a
+// node that IS running consensus, faster than its loop takes them off the queue, so that Receive calls block on the
+// full queue while the loop works. Every Receive must return once the loop has caught up, and the loop must keep
+// going (a Receive that holds a lock the loop needs while it waits for a free slot stops both for ever).
+func voteFlood(r *core.Run) {
+	r.Cases("vote-flood", r.N(3, 24), childOpts, func(c *core.Case) {
+		rg := c.R
+		spec := envSpec{Mode: "caughtup", Height: uint64(2 + rg.Intn(2)), Stage: rg.Intn(6)}
+		rn := open(c, spec)
+		if rn == nil {
+			return
+		}
+		defer func() { rn.close() }()
+		e := rn.e
+		l := snapshot(e)
+		var msgs []Msg
+		for _, k := range []string{"Vote", "Vote", "BlockPart"} {
+			if m, ok := l.validMsg(k, l.H, l.R); ok {
+				msgs = append(msgs, m)
+			}
+		}
+		if len(msgs) == 0 {
+			c.Run.Count("vote_flood_no_valid_message", 1)
+			return
+		}
+		senders := 3 + rg.Intn(3)
+		per := 1500
+		var peers []*StubPeer
+		for i := 0; i < senders; i++ {
+			p := rn.begin("same", nil)
+			if p == nil {
+				return
+			}
+			peers = append(peers, p)
+		}
+		done := make(chan int, senders)
+		for i, p := range peers {
+			go func(i int, p *StubPeer) {
+				n := 0
+				defer func() { recover(); done <- n }()
+				for k := 0; k < per; k++ {
+					m := msgs[(i+k)%len(msgs)]
+					e.byCh[m.Ch].Receive(m.Ch, p, m.Bytes)
+					n++
+				}
+			}(i, p)
+		}
+		total, finished := 0, 0
+		timeout := time.After(90 * time.Second)
+	wait:
+		for finished < senders {
+			select {
+			case n := <-done:
+				total += n
+				finished++
+			case <-timeout:
+				break wait
+			}
+		}
+		c.Run.Eval(total)
+		c.Run.Count("vote_flood_messages_received", total)
+		c.Run.Max("vote_flood_senders", int64(senders))
+		if finished < senders {
+			rn.broken = true
+			c.Violation("hang:consensus:vote-flood:consensus.(*ConsensusManager).Receive", fmt.Sprintf("%d of %d connections are still inside Receive 90 s after they started delivering %d well-formed votes/parts each to a node that is running consensus (queue of %d)", senders-finished, senders, per, 1000), nil)
+			return
+		}
+		if !e.V.Quiesce() {
+			rn.broken = true
+			c.Violation("consensus-loop-dead:vote-flood", "the consensus routine does not reach quiescence after the flood: "+e.V.DeadWhy, nil)
+			return
+		}
+		c.Run.Count("vote_floods_survived", 1)
+		c.Run.Nontrivial(fmt.Sprint("vote-flood", c.I, senders))
+	})
+}
